@@ -1031,7 +1031,15 @@ class Scene(Geometry3D):
         hull : trimesh.Trimesh
           Trimesh object which is a convex hull of all meshes in scene
         """
-        points = util.vstack_empty([m.vertices for m in self.dump()])  # type: ignore
+        # planar paths which are not moved out of plane stay 2D when dumped
+        points = util.vstack_empty(
+            [
+                m.vertices
+                if m.vertices.shape[1] == 3
+                else np.column_stack((m.vertices, np.zeros(len(m.vertices))))
+                for m in self.dump()
+            ]
+        )  # type: ignore
         return convex.convex_hull(points)
 
     def export(self, file_obj=None, file_type=None, **kwargs):
